@@ -123,7 +123,8 @@ Fixpoint take_line (s : stream) : stream * stream :=
   end.
 
 (* IEEE-754 binary64 patterns *)
-Definition finite_b (x : Z) : bool := negb ((x / 4503599627370496) mod 2048 =? 2047).
+Definition finite_b (x : Z) : bool :=
+  (0 <=? x) && (x <=? 18446744073709551615) && negb ((x / 4503599627370496) mod 2048 =? 2047).
 (* order of the finite/infinite doubles on patterns (std::less<double>, used by
    the std::map of distribution): sign-magnitude -> Z; -0 and +0 coincide *)
 Definition dkey (x : Z) : Z :=
@@ -270,6 +271,13 @@ Definition mep_save_impl (ss : symset) (m : mep) : stream :=
   show_u (mep_rows m) ++ [32] ++ show_u (m_cols m) ++ [10]
   ++ flat_map (gene_save ss) (m_genes m)
   ++ (if mep_rows m mod (u32_max + 1) =? 0 then []       (* empty(): size() == 0 *)
+      else show_u (fst (m_best m)) ++ [32] ++ show_u (snd (m_best m)) ++ [10]).
+
+Definition mep_save_pinned (show6 : Z -> stream) (ss : symset) (m : mep) : stream :=
+  show_u (m_age m) ++ [10]
+  ++ show_u (mep_rows m) ++ [32] ++ show_u (m_cols m) ++ [10]
+  ++ flat_map (gene_save_pinned show6 ss) (m_genes m)
+  ++ (if mep_rows m mod (u32_max + 1) =? 0 then []
       else show_u (fst (m_best m)) ++ [32] ++ show_u (snd (m_best m)) ++ [10]).
 
 (* one iteration of  for (auto &g : genome)  *)
@@ -545,7 +553,55 @@ Definition pop_load_pinned (fresh : population I) (s : stream) (t : population I
       if n =? 0 then PFail else pinned_layers (length s1) n 0 s1 fresh
   end.
 
+(* ---- the repaired population::load in the same checked vocabulary: two
+   parallel local vectors grown by push_back, then the capacity loop
+   for (l = 0; l < pop.size(); ++l) pop[l].reserve(max(allowed[l], pop[l].size()))
+   which indexes both *)
+Fixpoint layers_chk (fuel : nat) (n : Z) (s : stream) (pop : list (list I)) (allowed : list Z)
+  : pres (list (list I) * list Z) :=
+  if n <=? 0 then POk (pop, allowed) s else
+  match fuel with
+  | O => PFail
+  | S f =>
+      match read_u32 s with
+      | None => PFail
+      | Some (al, s1) =>
+          match read_u32 s1 with
+          | None => PFail
+          | Some (ne, s2) =>
+              match rep ind_parse (length s2) ne s2 with
+              | None => PFail
+              | Some (v, s3) => layers_chk f (n - 1) s3 (pop ++ [v]) (allowed ++ [al])
+              end
+          end
+      end
+  end.
+
+Fixpoint reserve_loop (k l : nat) (pop : list (list I)) (allowed : list Z) : bool :=
+  match k with
+  | O => true
+  | S k' =>
+      match nth_error pop l, nth_error allowed l with
+      | Some _, Some _ => reserve_loop k' (S l) pop allowed
+      | _, _ => false                                   (* pop[l] / allowed[l] out of bounds *)
+      end
+  end.
+
+Definition pop_load_chk (s : stream) : pres (population I) :=
+  match read_u32 s with
+  | None => PFail
+  | Some (n, s1) =>
+      if n =? 0 then PFail else
+      match layers_chk (length s1) n s1 [] [] with
+      | POk (pop, allowed) s2 =>
+          if reserve_loop (length pop) 0 pop allowed then POk (combine allowed pop) s2 else POob
+      | PFail => PFail
+      | POob => POob
+      end
+  end.
+
 End Containers.
+Arguments POk {T}. Arguments PFail {T}. Arguments POob {T}.
 
 (* ------------------------------------------------ distribution<double> --- *)
 Definition dist_save (d : distribution) : stream :=
@@ -621,3 +677,4 @@ Definition matrix_load (s : stream) (t : matrix) : lres matrix :=
   end.
 
 End Oracles.
+Arguments POk {T}. Arguments PFail {T}. Arguments POob {T}.
